@@ -1,9 +1,10 @@
 (* Extraction of the transaction / supply model for ocaml/tx/driver.ml.  ExtrOcamlBasic only. *)
-From AQ Require Import Lib.Bytes Lib.ExtractBase Lib.Keccak Tx.Transition Tx.Supply.
+From AQ Require Import Lib.Bytes Lib.ExtractBase Lib.Keccak Tx.Transition Tx.Supply Tx.Compose.
 Require Extraction.
 Require Import ExtrOcamlBasic.
 Extraction "../ocaml/tx/model.ml" base_anchor keccak256
   get upd supply builtin_cfg intrinsic_gas create_address transition_db apply_transaction
   process block_valid validate_gas_used accumulate_rewards apply_hf4 issuance refund_amount
   add_balance set_nonce
-  apply_transaction_e process_e accumulate_rewards_e finalise_e materialise ghosts is_forked.
+  apply_transaction_e process_e accumulate_rewards_e finalise_e materialise ghosts is_forked
+  apply_transaction_i dg_c sg_c code_of_c stor_of_c.
